@@ -183,9 +183,9 @@ def gen_plan(rng, tier="quick"):
             steps.append(st)
             files[name] = fmt
             if rng.random() < 0.6:
-                steps.append({"op": "read", "file": name, "short_reads": rng.random() < 0.3, "engine": rng.random() < 0.2})
+                steps.append({"op": "read", "file": name, "short_reads": rng.random() < 0.3, "engine": rng.random() < 0.2, "how": rng.choice(["path", "path", "path", "fileobj", "pathlib"])})
         elif kind == "read":
-            steps.append({"op": "read", "file": rng.choice(sorted(files)), "short_reads": rng.random() < 0.3, "engine": rng.random() < 0.2})
+            steps.append({"op": "read", "file": rng.choice(sorted(files)), "short_reads": rng.random() < 0.3, "engine": rng.random() < 0.2, "how": rng.choice(["path", "path", "path", "fileobj", "pathlib"])})
         else:
             sw = [f for f, fm in files.items() if fm.startswith("swan")]
             if sw:
@@ -256,10 +256,20 @@ def do_write(ds, fmt, path, kw):
     raise ValueError(fmt)
 
 
-def do_read(fmt, path, recipe, engine=False):
+def do_read(fmt, path, recipe, engine=False, how="path"):
     import wavespectra as ws
 
     base = fmt.split("_")[0]
+    if not engine and how == "fileobj" and base in ("octopus", "json", "funwave"):
+        # the documented "filename or file-like object" door: the caller opens the file, the reader gets the handle
+        import gzip
+
+        with (gzip.open(path, "rt") if str(path).endswith(".gz") else open(path, "rt")) as fobj:
+            return {"octopus": ws.read_octopus, "json": ws.read_json, "funwave": ws.read_funwave}[base](fobj)
+    if not engine and how == "pathlib" and base == "octopus":
+        import pathlib
+
+        return ws.read_octopus(pathlib.Path(path))
     if engine:
         # the matching reader reached through xarray: xr.open_dataset(path, engine=<format>)
         import xarray as xr
@@ -669,9 +679,12 @@ def execute(arg):
                 exp, _, lonlat = expected_dataset(w["recipe"], w["fmt"])
                 sim.count("reads")
                 base = w["fmt"].split("_")[0]
-                cause = features(w, h) + ("+via-xarray-engine" if st.get("engine") else "")
+                how = st.get("how", "path") if not st.get("engine") and (base in ("octopus", "json", "funwave") and st.get("how") == "fileobj" or base == "octopus" and st.get("how") == "pathlib") else "path"
+                cause = features(w, h) + ("+via-xarray-engine" if st.get("engine") else "") + ("" if how == "path" else "+" + how)
+                if how != "path":
+                    sim.count("reads_" + how)
                 try:
-                    got = do_read(w["fmt"], path, w["recipe"], engine=bool(st.get("engine")))
+                    got = do_read(w["fmt"], path, w["recipe"], engine=bool(st.get("engine")), how=how)
                 except Exception as exc:
                     viol.append({"property": PROPERTY, "signature": f"C11/roundtrip/{base}/{cause}/read-raises-{type(exc).__name__}", "step": i,
                                  "detail": f"step {i}: reading {st['file']} (acknowledged {w['fmt']} write of {D.describe(w['recipe'])}, kw={w['kw']}, history={h}) raises {type(exc).__name__}: {exc}".replace(root, "<fs>")[:900]})
